@@ -182,6 +182,7 @@ class Ctx:
         self.facts = []
         self.qfacts = []
         self.bounds = []
+        self.cond = set()      # indices of facts that are path conditions / checked assumptions
         self.sol = sol
 
     def copy(self):
@@ -189,7 +190,15 @@ class Ctx:
         c.facts = list(self.facts)
         c.qfacts = list(self.qfacts)
         c.bounds = list(self.bounds)
+        c.cond = set(self.cond)
         return c
+
+    def assume(self, f):
+        """a fact that holds on this path only (branch condition, checked assumption)"""
+        if f is True or (z3.is_expr(f) and z3.is_true(f)):
+            return
+        self.cond.add(len(self.facts))
+        self.add(f)
 
     def add(self, *fs):
         for f in fs:
